@@ -464,6 +464,6 @@ func (dbcStream) Gen(r *rand.Rand, tier string, idx int) []string {
 		sc = append(sc, dbcParseLine(t, pick(r, hex, hex, !hex)))
 	}
 	// byte-level scanner model (dbc scan lines; generated last: the lines above keep their PRNG draws)
-	sc = append(sc, dbcScanGen(r, tier, text, mutants)...)
+	sc = append(sc, dbcScanGen(r, tier, text, dbcWellFormed(j), mutants)...)
 	return sc
 }
